@@ -17,6 +17,7 @@ def connTok (t : String) : Option Nat := t.toNat?
 structure ES where
   s : S := {}
   stalled : List (Nat × Nat) := []
+  blocked : List Nat := []     -- connections with a frame handler held by the script
 
 def stepS (s : S) (line : String) : S × String :=
   let lab (l : Label) : S × String := step true s l
@@ -94,6 +95,15 @@ def stepLine (e : ES) (line : String) : ES × String :=
           ({ e with stalled := (c, x.2 + 1) :: e.stalled.filter (fun y => y.1 != c) }, "sent")
         else (e, "dropped")
       | none => (e, "notstalled")
+    | none => (e, "bad-op")
+  | ["sendblock", c] => match connTok c with
+    | some c =>
+      -- a frame like any other; that its handler does not return changes nothing for the manager
+      let (s', o) := step true e.s (.frame c)
+      if o = "delivered" then ({ e with s := s', blocked := c :: e.blocked }, "blocked") else (e, "dropped")
+    | none => (e, "bad-op")
+  | ["unblock", c] => match connTok c with
+    | some c => if e.blocked.contains c then ({ e with blocked := e.blocked.filter (· != c) }, "ok") else (e, "notblocked")
     | none => (e, "bad-op")
   | ["unstall", c] => match connTok c with
     | some c => match e.stalled.find? (fun x => x.1 == c) with
@@ -178,7 +188,13 @@ def specLine (s : SpecSt) (line : String) : SpecSt × String :=
       | some c => if res = "delivered" && s.rejected.contains c then (s, "fail rejected-delivered") else (s, "ok")
       | none => (s, "ok")
     | ["ktimeout", c], ["ok"] => (match c.toNat? with | some c => s.down c | none => s, "ok")
-    | ["rclose", c], ["ok"] => (match c.toNat? with | some c => s.down c | none => s, "ok")
+    | ["rclose", c], [r] =>
+      -- the remote end has closed it: whatever the teardown does, this connection is not the live one any more
+      if r = "notopen" then (s, "ok") else (match c.toNat? with | some c => s.down c | none => s, "ok")
+    | ["sendblock", c], [res] =>
+      match c.toNat? with
+      | some c => if res = "blocked" && s.rejected.contains c then (s, "fail rejected-delivered") else (s, "ok")
+      | none => (s, "ok")
     | ["readerr", c], ["ok"] => (match c.toNat? with | some c => s.down c | none => s, "ok")
     | ["disconnect", p], ["ok"] => (match p.toNat? with | some p => { s with cur := erase s.cur p } | none => s, "ok")
     | ["disconnectall"], _ => ({ s with cur := [] }, "ok")
